@@ -16,9 +16,9 @@ func init() {
 		Title: "Failed parses leave receiver and input untouched; string and bytes agree",
 		Run:   runC17,
 		Explanation: "C17.store: in each of the 8 pointer-receiver Unmarshal*/Scan methods no store into receiver-derived memory (direct, field-wise or through an in-repo callee that writes its receiver) can reach a return whose error operand is not the nil constant (CFG reachability over SSA). " +
-			"C17.ro: alias analysis from every parser entry point: no element store, copy or append targets memory that may alias the input (conversions of the type parameter, sub-slices, FindSubmatch results); stdlib callees receiving an alias must be in the read-only summary table; a slice sharing the input's bytes is not stored where it outlives the call. C17.errinput: the methods of the typed parse errors, which keep the input in their Input field, do not write through an alias of it either (Error() formats a caller's []byte). " +
+			"C17.ro: alias analysis from every parser entry point: no element store, copy or append targets memory that may alias the input (conversions of the type parameter, sub-slices, FindSubmatch results); stdlib callees receiving an alias must be in the read-only summary table; a slice sharing the input's bytes is not stored where it outlives the call; aliases are followed through local cells (variables captured by closures) and into the closures themselves. C17.errinput: the methods of the typed parse errors, which keep the input in their Input field, do not write through an alias of it either (Error() formats a caller's []byte). " +
 			"C17.alias: result types contain no reference into the input (Date, Number, Size, ID have no pointer/slice/string fields; Ver's strings are produced by copying string(...) conversions); no unsafe in the value packages. " +
-			"C17.generic: one generic body per parser, in which no type switch/assertion/reflect inspects a T-typed value, and every fmt verb applied to a T-typed value prints string and []byte identically. C17.generic also reports every input-typed value that is converted to an interface and leaves the generic body other than as a %q/%s/%x operand of a constant format (fmt.Sprint, non-constant formats, helpers taking any).",
+			"C17.generic: one generic body per parser, in which no type switch/assertion/reflect inspects a T-typed value, no type assertion or errors.As target is a type built from T (*ParseError[T]: it matches for one instantiation only), and every fmt verb applied to a T-typed value prints string and []byte identically. C17.generic also reports every input-typed value that is converted to an interface and leaves the generic body other than as a %q/%s/%x operand of a constant format (fmt.Sprint, non-constant formats, helpers taking any).",
 		NotDecided:  []string{"error *types* differ by instantiation by design (ParseError[string] vs ParseError[[]byte]); only values and messages are claimed"},
 		Technique:   "store-then-error reachability, input alias/effect analysis and generic-body type rules over go/ssa",
 		Assumptions: []string{"stdlib read-only summaries (regexp.Find*/Match*, bytes.NewReader, json.NewDecoder, strconv.*) do not write their input", "FindSubmatch results alias the subject"},
@@ -257,6 +257,9 @@ func ruleGeneric(e *Env, entries []*ssa.Function) {
 					if mi, ok := x.X.(*ssa.MakeInterface); ok && mentionsTypeParam(mi.X.Type()) {
 						e.S.Bad(rule, site, "type-assert", "dynamic type test on a value of the input's type parameter: string and []byte instantiations may diverge", e.posOf(x), "")
 						bad = true
+					} else if dependsOnInputParam(x.AssertedType, 0) {
+						e.S.Bad(rule, site, "type-assert", "dynamic type test against a type built from the input's type parameter ("+x.AssertedType.String()+"): it holds for one instantiation and fails for the other on the same value", e.posOf(x), "")
+						bad = true
 					}
 				case *ssa.Call:
 					callee := x.Call.StaticCallee()
@@ -264,6 +267,14 @@ func ruleGeneric(e *Env, entries []*ssa.Function) {
 						continue
 					}
 					name := callee.String()
+					if name == "errors.As" && len(x.Call.Args) == 2 {
+						// errors.As(err, &target) with a target type built from the type parameter (*ParseError[T]): which
+						// errors it finds depends on the instantiation, nested errors keep the type they were made with
+						if mi, ok := x.Call.Args[1].(*ssa.MakeInterface); ok && dependsOnInputParam(mi.X.Type(), 0) {
+							e.S.Bad(rule, site, "errors.As", "errors.As with a target type built from the input's type parameter ("+mi.X.Type().String()+"): the match depends on the instantiation, so string and []byte callers can get different errors", e.posOf(x), "")
+							bad = true
+						}
+					}
 					if strings.HasPrefix(name, "reflect.") {
 						for _, a := range x.Call.Args {
 							if mi, ok := a.(*ssa.MakeInterface); ok && mentionsTypeParam(mi.X.Type()) {
@@ -366,6 +377,28 @@ func mentionsTypeParam(t types.Type) bool {
 		return mentionsTypeParam(u.Elem())
 	case *types.Slice:
 		return mentionsTypeParam(u.Elem())
+	}
+	return false
+}
+
+// dependsOnInputParam: t is built from the parser-input type parameter, also as a type argument (*ParseError[T]).
+func dependsOnInputParam(t types.Type, depth int) bool {
+	if depth > 6 {
+		return false
+	}
+	switch u := t.(type) {
+	case *types.TypeParam:
+		return constraintAdmitsBytes(u.Constraint(), 0)
+	case *types.Pointer:
+		return dependsOnInputParam(u.Elem(), depth+1)
+	case *types.Slice:
+		return dependsOnInputParam(u.Elem(), depth+1)
+	case *types.Named:
+		for i := 0; i < u.TypeArgs().Len(); i++ {
+			if dependsOnInputParam(u.TypeArgs().At(i), depth+1) {
+				return true
+			}
+		}
 	}
 	return false
 }
